@@ -38,7 +38,10 @@ var Quit bool
 
 func ParseInputLine(inputLine string) {
 	if inputLine == uIsReady {
-		search = NewSearch()
+		// never replace the search object here: a search may be running on it and `stop` must still reach it
+		if search == nil {
+			search = NewSearch()
+		}
 		fmt.Println("readyok")
 	} else if inputLine == "eval" {
 		fmt.Println(Evaluate(posGen.getTopPos(), 0, true))
@@ -51,8 +54,13 @@ func ParseInputLine(inputLine string) {
 	} else if strings.HasPrefix(inputLine, uGo) {
 		doGo(strings.TrimSpace(strings.TrimPrefix(inputLine, uGo)))
 	} else if inputLine == "stop" {
-		if search != nil && !search.interrupted {
-			search.stop <- true
+		if search != nil {
+			// never block the command loop: the request waits in the channel (capacity 1) until the
+			// search polls it; if one is already pending there is nothing to add
+			select {
+			case search.stop <- true:
+			default:
+			}
 		}
 	} else if strings.HasPrefix(inputLine, uOptionSet) {
 		setOption(strings.TrimSpace(strings.TrimPrefix(inputLine, uOptionSet)))
@@ -242,6 +250,11 @@ out:
 	} else {
 		endtime = calcEndtime(startTime, blackMillisLeft, blackMillisIncrement, whiteMillisLeft, whiteMillisIncrement,
 			fullMovesToGo)
+	}
+	// discard a stop request that arrived after the previous search had already finished
+	select {
+	case <-search.stop:
+	default:
 	}
 	verifDeadline(startTime, endtime, targetDepth)
 	go search.StartIterativeDeepening(startTime, endtime, targetDepth)
